@@ -24,13 +24,20 @@
 EXTENDS Naturals, Sequences, FiniteSets, TLC
 
 CONSTANTS MaxTokens,    \* bound on token strings (machine "strings") / postfix tokens (machine "trees")
-          Mode          \* "strings" or "trees"
+          Mode,         \* "strings" or "trees"
+          Quant         \* TRUE: the strings machine also writes the quantifier prefix "Q" (and no line breaks)
 
-Tok == {"T", "F", "!", "&&", "||", "(", ")", "NL"}
+(* "Q" is a quantifier of a matcher over a collection - "every line :", "any line :", "every file :", "any file :" -  *)
+(* whose operand is a matcher of ANOTHER type (the element type) and is a SIMPLE expression: one primitive, a        *)
+(* negation or a parenthesised expression.  So "Q" binds like "!": in `Q a && b` the operand of Q is `a`.  Inside     *)
+(* the operand the element type's grammar is read (level 1), where there is no quantifier.  Over a collection of      *)
+(* exactly one element both quantifiers denote their operand's value.                                                 *)
+Tok == IF Quant THEN {"T", "F", "!", "&&", "||", "(", ")", "Q"} ELSE {"T", "F", "!", "&&", "||", "(", ")", "NL"}
 ERR == [op |-> "err"]
 IsErr(r) == r.op = "err"
 Leaf(v, pos) == [op |-> "leaf", v |-> v, pos |-> pos]
 NotE(a) == [op |-> "not", a |-> a]
+QuantE(a) == [op |-> "q", a |-> a]
 Nary(o, as) == [op |-> o, as |-> as]
 
 -----------------------------------------------------------------------------
@@ -43,43 +50,46 @@ OpPos(ts, i, len) == IF len THEN SkipNL(ts, i) ELSE i
 
 \* results: [op |-> "ok", t |-> tree, i |-> next position] or ERR
 Ok(t, i) == [op |-> "ok", t |-> t, i |-> i]
-RECURSIVE POr(_, _, _), PAnd(_, _, _), PPrim(_, _, _), POrTail(_, _, _, _), PAndTail(_, _, _, _)
-PPrim(ts, i0, len) ==
+RECURSIVE POr(_, _, _, _), PAnd(_, _, _, _), PPrim(_, _, _, _), POrTail(_, _, _, _, _), PAndTail(_, _, _, _, _)
+PPrim(ts, i0, len, lv) ==
   LET h == At(ts, i0) IN
   IF h \in {"T", "F"} THEN Ok(Leaf(h, i0), i0 + 1)
-  ELSE IF h = "!" THEN LET r == PPrim(ts, SkipNL(ts, i0 + 1), len) IN IF IsErr(r) THEN ERR ELSE Ok(NotE(r.t), r.i)
-  ELSE IF h = "(" THEN LET r == POr(ts, SkipNL(ts, i0 + 1), len) IN
+  ELSE IF h = "!" THEN LET r == PPrim(ts, SkipNL(ts, i0 + 1), len, lv) IN IF IsErr(r) THEN ERR ELSE Ok(NotE(r.t), r.i)
+  ELSE IF h = "Q" THEN IF lv # 0 THEN ERR
+                       ELSE LET r == PPrim(ts, i0 + 1, len, 1) IN IF IsErr(r) THEN ERR ELSE Ok(QuantE(r.t), r.i)
+  ELSE IF h = "(" THEN LET r == POr(ts, SkipNL(ts, i0 + 1), len, lv) IN
        IF IsErr(r) THEN ERR
        ELSE LET j == SkipNL(ts, r.i) IN IF At(ts, j) = ")" THEN Ok(r.t, j + 1) ELSE ERR
   ELSE ERR
-PAndTail(ts, acc, i, len) ==
+PAndTail(ts, acc, i, len, lv) ==
   LET j == OpPos(ts, i, len) IN
   IF At(ts, j) = "&&"
-  THEN LET r == PPrim(ts, SkipNL(ts, j + 1), len) IN IF IsErr(r) THEN ERR ELSE PAndTail(ts, Append(acc, r.t), r.i, len)
+  THEN LET r == PPrim(ts, SkipNL(ts, j + 1), len, lv) IN IF IsErr(r) THEN ERR ELSE PAndTail(ts, Append(acc, r.t), r.i, len, lv)
   ELSE Ok(IF Len(acc) = 1 THEN acc[1] ELSE Nary("and", acc), i)
-PAnd(ts, i, len) == LET r == PPrim(ts, i, len) IN IF IsErr(r) THEN ERR ELSE PAndTail(ts, <<r.t>>, r.i, len)
-POrTail(ts, acc, i, len) ==
+PAnd(ts, i, len, lv) == LET r == PPrim(ts, i, len, lv) IN IF IsErr(r) THEN ERR ELSE PAndTail(ts, <<r.t>>, r.i, len, lv)
+POrTail(ts, acc, i, len, lv) ==
   LET j == OpPos(ts, i, len) IN
   IF At(ts, j) = "||"
-  THEN LET r == PAnd(ts, SkipNL(ts, j + 1), len) IN IF IsErr(r) THEN ERR ELSE POrTail(ts, Append(acc, r.t), r.i, len)
+  THEN LET r == PAnd(ts, SkipNL(ts, j + 1), len, lv) IN IF IsErr(r) THEN ERR ELSE POrTail(ts, Append(acc, r.t), r.i, len, lv)
   ELSE Ok(IF Len(acc) = 1 THEN acc[1] ELSE Nary("or", acc), i)
-POr(ts, i, len) == LET r == PAnd(ts, i, len) IN IF IsErr(r) THEN ERR ELSE POrTail(ts, <<r.t>>, r.i, len)
+POr(ts, i, len, lv) == LET r == PAnd(ts, i, len, lv) IN IF IsErr(r) THEN ERR ELSE POrTail(ts, <<r.t>>, r.i, len, lv)
 
 \* a complete expression: starts on the instruction's line and is followed by nothing
 Parse(ts, len) ==
   IF ts = <<>> \/ ts[1] = "NL" THEN ERR
-  ELSE LET r == POr(ts, 1, len) IN IF IsErr(r) THEN ERR ELSE IF r.i # Len(ts) + 1 THEN ERR ELSE r.t
+  ELSE LET r == POr(ts, 1, len, 0) IN IF IsErr(r) THEN ERR ELSE IF r.i # Len(ts) + 1 THEN ERR ELSE r.t
 
 \* the same grammar restricted to a "simple" expression: one primitive / negation / parenthesised expression
 ParseSimple(ts, len) ==
   IF ts = <<>> \/ ts[1] = "NL" THEN ERR
-  ELSE LET r == PPrim(ts, 1, len) IN IF IsErr(r) THEN ERR ELSE IF r.i # Len(ts) + 1 THEN ERR ELSE r.t
+  ELSE LET r == PPrim(ts, 1, len, 0) IN IF IsErr(r) THEN ERR ELSE IF r.i # Len(ts) + 1 THEN ERR ELSE r.t
 
 -----------------------------------------------------------------------------
 (* Lazy evaluation, left to right: the value and the positions of the primitives actually evaluated *)
 RECURSIVE Eval(_), EvalSeq(_, _, _)
 Eval(t) == CASE t.op = "leaf" -> [v |-> t.v = "T", log |-> <<t.pos>>]
              [] t.op = "not" -> LET r == Eval(t.a) IN [v |-> ~r.v, log |-> r.log]
+             [] t.op = "q" -> Eval(t.a)           \* a collection of one element
              [] t.op = "and" -> EvalSeq(t.as, 1, FALSE)
              [] t.op = "or" -> EvalSeq(t.as, 1, TRUE)
 \* stop at the first operand whose value is `decisive` (FALSE for &&, TRUE for ||)
@@ -95,6 +105,7 @@ Denote(ts, len) == LET p == Parse(ts, len) IN
 RECURSIVE Shape(_), ShapeSeq(_)
 Shape(t) == CASE t.op = "leaf" -> <<"leaf", t.v>>
               [] t.op = "not" -> <<"not", Shape(t.a)>>
+              [] t.op = "q" -> <<"q", Shape(t.a)>>
               [] t.op \in {"and", "or"} -> <<t.op, ShapeSeq(t.as)>>
               [] t.op = "err" -> <<"err">>
 ShapeSeq(as) == IF as = <<>> THEN <<>> ELSE <<Shape(Head(as))>> \o ShapeSeq(Tail(as))
@@ -110,6 +121,8 @@ Render(t, parens, nl) ==
     [] t.op = "not" -> LET s == Render(t.a, parens, nl) IN
                        <<"!">> \o (IF nl = "afterop" THEN <<"NL">> ELSE <<>>)
                        \o (IF t.a.op \in {"and", "or"} THEN Wrap(s, nl) ELSE s)
+    [] t.op = "q" -> LET s == Render(t.a, parens, nl) IN
+                     <<"Q">> \o (IF t.a.op \in {"and", "or"} THEN Wrap(s, nl) ELSE s)
     [] t.op \in {"and", "or"} -> RenderOperands(t, 1, parens, nl, <<>>)
 RenderOperands(t, j, parens, nl, acc) ==
   IF j > Len(t.as) THEN acc
@@ -169,6 +182,16 @@ Increasing(s) == Len(s) <= 1 \/ (s[1] < s[2] /\ Increasing(Tail(s)))
 LeftToRight == Mode = "strings" => Increasing(Denote(ts, TRUE).log)
 \* every layout of every tree parses back to that tree, under both readings: redundant parentheses and the
 \* permitted line breaks change nothing, precedence and n-ary folding are as documented
+\* the quantifier binds like a prefix operator: over a one-element collection, erasing every "Q" from a well-formed
+\* string leaves a well-formed string with the same value and the same primitives evaluated
+Erase(s) == SelectSeq(s, LAMBDA t : t # "Q")
+RECURSIVE CountQ(_, _)
+CountQ(s, k) == IF k = 0 THEN 0 ELSE CountQ(s, k - 1) + (IF s[k] = "Q" THEN 1 ELSE 0)
+ErasedLog(s, log) == [j \in 1..Len(log) |-> log[j] - CountQ(s, log[j])]
+QuantifierIsPrefixOperator ==
+  (Mode = "strings" /\ Quant) =>
+     LET d == Denote(ts, TRUE) e == Denote(Erase(ts), TRUE) IN
+     d.r # "ERR" => (e.r = d.r /\ e.log = ErasedLog(ts, d.log))
 RoundTrip ==
   (Mode = "trees" /\ done) =>
      \A l \in Layouts : LET r == RenderL(Top, l) IN
